@@ -123,6 +123,9 @@ pub struct ScriptedRng {
     /// the current one began
     pub cand: u64,
     cand_start: u64,
+    /// when Some: the low byte of every u32 handed out (the signer draws u32s only inside the
+    /// integer sampler; salts and seeds come through fill_bytes and are not recorded)
+    pub record: Option<Vec<u8>>,
 }
 
 impl ScriptedRng {
@@ -134,6 +137,7 @@ impl ScriptedRng {
             outpos: 0,
             cand: 0,
             cand_start: 0,
+            record: None,
             strategy,
             pos: 0,
             total_u32: 0,
@@ -267,6 +271,9 @@ impl RngCore for ScriptedRng {
     fn next_u32(&mut self) -> u32 {
         // the signer only keeps the low byte of each u32; fill the rest honestly
         let b = self.draw_byte() as u32;
+        if let Some(r) = self.record.as_mut() {
+            r.push(b as u8);
+        }
         let hi: u32 = self.aux.next_u32() & 0xffff_ff00;
         hi | b
     }
